@@ -1,8 +1,220 @@
-(* C11 — proofs about export/import (model in Acme.C10.Export / Import). *)
+(* C11 — proofs about export followed by import (model in Acme.C10.Export / Import). *)
 From Coq Require Import String Ascii ZArith List Bool Lia.
+From Coq Require Import ZifyBool.
 From Acme.C10 Require Import DbcDoc BusModel Import Export Bits.
 From Acme.C10 Require Proofs.
 Import ListNotations.
 Open Scope Z_scope.
 
 Definition start_bit_inverse := Acme.C10.Proofs.start_bit_inverse.
+
+(* ------------------------------------------------------------------------------------------ *)
+(* float tokens: an integral double printed without '.', read back as an integer and converted  *)
+(* with float64(int) is the same double                                                        *)
+(* ------------------------------------------------------------------------------------------ *)
+Definition fl_canonical (f : fl) : Prop := (fm f = 0 /\ fe f = 0) \/ Z.odd (fm f) = true.
+
+Lemma fl_norm_aux_pow : forall (k : nat) fuel m e, (k < fuel)%nat -> Z.odd m = true ->
+  fl_norm_aux fuel (m * 2 ^ Z.of_nat k) e = mkfl m (e + Z.of_nat k).
+Proof.
+  induction k as [|k IH]; intros fuel m e Hf Hm.
+  - destruct fuel as [|fuel]; [lia|]. cbn [fl_norm_aux]. rewrite Z.pow_0_r, Z.mul_1_r.
+    assert (m <> 0) by (intros ->; discriminate).
+    replace (m =? 0) with false by lia.
+    rewrite <- Z.negb_odd, Hm. cbn. f_equal. lia.
+  - destruct fuel as [|fuel]; [lia|]. cbn [fl_norm_aux].
+    assert (m <> 0) by (intros ->; discriminate).
+    assert (Hpos : 0 < 2 ^ Z.of_nat (S k)) by (apply Z.pow_pos_nonneg; lia).
+    replace (m * 2 ^ Z.of_nat (S k) =? 0) with false by nia.
+    rewrite Nat2Z.inj_succ, Z.pow_succ_r by lia.
+    replace (m * (2 * 2 ^ Z.of_nat k)) with (2 * (m * 2 ^ Z.of_nat k)) by ring.
+    rewrite Z.even_mul. cbn [Z.even orb].
+    replace (2 * (m * 2 ^ Z.of_nat k) / 2) with (m * 2 ^ Z.of_nat k) by (apply Z.div_unique_exact; [lia|ring]).
+    rewrite IH by (try lia; assumption). f_equal. lia.
+Qed.
+
+Lemma fl_of_Z_to_Z : forall f, fl_canonical f -> fl_is_decimal f = false -> fl_of_Z (fl_to_Z f) = f.
+Proof.
+  intros [m e] [[Hm He]|Hodd] Hd; cbn [fm fe] in *.
+  - subst. reflexivity.
+  - unfold fl_is_decimal in Hd. cbn [fm fe] in Hd.
+    assert (m <> 0) by (intros ->; discriminate).
+    assert (He : 0 <= e) by lia.
+    unfold fl_of_Z, fl_to_Z, fl_norm. cbn [fm fe].
+    rewrite <- (Z2Nat.id e) at 1 2 by lia.
+    rewrite fl_norm_aux_pow; [f_equal; lia| |assumption].
+    (* fuel: 1 + log2 |m * 2^e| > e *)
+    assert (Hpos : 0 < 2 ^ Z.of_nat (Z.to_nat e)) by (apply Z.pow_pos_nonneg; lia).
+    assert (Hle : 2 ^ Z.of_nat (Z.to_nat e) <= Z.abs (m * 2 ^ Z.of_nat (Z.to_nat e))) by nia.
+    apply Z.log2_le_mono in Hle. rewrite Z.log2_pow2 in Hle by lia. lia.
+Qed.
+
+(* ------------------------------------------------------------------------------------------ *)
+(* attribute definitions and values of the four types (and hex) survive                         *)
+(*   export -> write/parse effect -> import                                                    *)
+(* ------------------------------------------------------------------------------------------ *)
+Definition wf_def (d : attr_def) : Prop :=
+  match d with
+  | DefString _ => True
+  | DefInt dv mn mx hex => mn <= dv <= mx /\ (hex = true -> 0 <= mn /\ mx < 2 ^ 32)
+  | DefFloat dv mn mx => fl_leb mn dv = true /\ fl_leb dv mx = true /\ fl_canonical dv
+  | DefEnum dv vals => NoDup vals /\ exists r, vals = dv :: r
+  end.
+
+Lemma u32_id : forall z, 0 <= z < 2 ^ 32 -> u32 z = z.
+Proof. intros z H. unfold u32. apply Z.mod_small. assumption. Qed.
+
+Lemma pow_split : forall m e e' e0, e0 <= e' -> e' <= e -> m * 2 ^ (e - e0) = m * 2 ^ (e - e') * 2 ^ (e' - e0).
+Proof. intros m e e' e0 Ha Hb. rewrite <- Z.mul_assoc, <- Z.pow_add_r by lia. f_equal. f_equal. lia. Qed.
+
+Lemma scaled_le_trans : forall ma ea mb eb mc ec,
+  ma * 2 ^ (ea - Z.min eb ea) <= mb * 2 ^ (eb - Z.min eb ea) ->
+  mb * 2 ^ (eb - Z.min ec eb) <= mc * 2 ^ (ec - Z.min ec eb) ->
+  ma * 2 ^ (ea - Z.min ec ea) <= mc * 2 ^ (ec - Z.min ec ea).
+Proof.
+  intros ma ea mb eb mc ec H1 H2.
+  remember (Z.min eb ea) as e1. remember (Z.min ec eb) as e2. remember (Z.min ec ea) as e3.
+  remember (Z.min ea (Z.min eb ec)) as e0.
+  assert (Hb : e0 <= e1 /\ e1 <= ea /\ e1 <= eb /\ e0 <= e2 /\ e2 <= eb /\ e2 <= ec /\ e0 <= e3 /\ e3 <= ea /\ e3 <= ec) by lia.
+  clear Heqe0 Heqe1 Heqe2 Heqe3.
+  assert (P1 : 0 <= 2 ^ (e1 - e0)) by (apply Z.pow_nonneg; lia).
+  assert (P2 : 0 <= 2 ^ (e2 - e0)) by (apply Z.pow_nonneg; lia).
+  assert (P3 : 0 < 2 ^ (e3 - e0)) by (apply Z.pow_pos_nonneg; lia).
+  assert (A : ma * 2 ^ (ea - e0) <= mb * 2 ^ (eb - e0)).
+  { rewrite (pow_split ma ea e1 e0), (pow_split mb eb e1 e0) by lia. apply Z.mul_le_mono_nonneg_r; assumption. }
+  assert (B : mb * 2 ^ (eb - e0) <= mc * 2 ^ (ec - e0)).
+  { rewrite (pow_split mb eb e2 e0), (pow_split mc ec e2 e0) by lia. apply Z.mul_le_mono_nonneg_r; assumption. }
+  assert (C : ma * 2 ^ (ea - e0) <= mc * 2 ^ (ec - e0)) by lia.
+  rewrite (pow_split ma ea e3 e0), (pow_split mc ec e3 e0) in C by lia.
+  apply Z.mul_le_mono_pos_r in C; assumption.
+Qed.
+
+Lemma fl_leb_trans : forall a b c, fl_leb a b = true -> fl_leb b c = true -> fl_leb a c = true.
+Proof.
+  intros [ma ea] [mb eb] [mc ec]. unfold fl_leb, fl_ltb. cbn [fm fe].
+  intros H1 H2. apply negb_true_iff in H1, H2. apply Z.ltb_ge in H1, H2. apply negb_true_iff, Z.ltb_ge.
+  eapply scaled_le_trans; eassumption.
+Qed.
+
+Theorem attr_def_roundtrip : forall k name d, wf_def d ->
+  let '(da, dd) := export_attribute k name d in
+  import_attr_def da (reparse_def dd) = Ok d.
+Proof.
+  intros k name d Hwf. destruct d as [s|dv mn mx hex|dv mn mx|dv vals]; cbn [export_attribute].
+  - reflexivity.
+  - cbn in Hwf. destruct Hwf as [Hr Hh]. destruct hex; cbn.
+    + destruct (Hh eq_refl) as [H0 H32]. unfold import_attr_def, reparse_def, default_int, new_int_attr. cbn.
+      rewrite !u32_id by lia.
+      replace (mn >? mx) with false by lia. replace (dv >? mx) with false by lia. replace (dv <? mn) with false by lia.
+      reflexivity.
+    + unfold import_attr_def, reparse_def, default_int, new_int_attr. cbn.
+      replace (mn >? mx) with false by lia. replace (dv >? mx) with false by lia. replace (dv <? mn) with false by lia.
+      reflexivity.
+  - cbn in Hwf. destruct Hwf as [H1 [H2 Hc]].
+    assert (Hdef : default_float (reparse_def (mkdattrdef VFloat name EmptyString 0 0 dv)) = dv).
+    { unfold reparse_def. cbn [ad_type ad_fl ad_name]. destruct (fl_is_decimal dv) eqn:Ed; cbn; [reflexivity|].
+      apply fl_of_Z_to_Z; assumption. }
+    unfold import_attr_def. cbn [at_type at_min_fl at_max_fl]. rewrite Hdef. unfold new_float_attr.
+    pose proof (fl_leb_trans _ _ _ H1 H2) as H3.
+    unfold fl_leb in H1, H2, H3. apply negb_true_iff in H1, H2, H3. rewrite H1, H2, H3. reflexivity.
+  - cbn in Hwf. destruct Hwf as [Hnd [r Hv]]. subst vals. cbn.
+    f_equal. f_equal.
+    assert (Hd : forall l seen, NoDup l -> (forall x, In x l -> ~ In x seen) -> dedup_str seen l = l).
+    { induction l as [|y q IH]; intros seen Hn Hs; cbn; [reflexivity|].
+      inversion Hn; subst.
+      destruct (mem_str y seen) eqn:E.
+      - apply Proofs.mem_str_true_in in E. exfalso. apply (Hs y); [left; reflexivity|assumption].
+      - f_equal. apply IH; [assumption|]. intros x Hx [Hx'|Hx']; [subst; contradiction|].
+        apply (Hs x); [right; assumption|assumption]. }
+    apply (Hd (dv :: r) []); [assumption|]. intros x _ [].
+Qed.
+
+(* a well-typed assignment: the value conforms to the attribute (withAttributes.addAttributeAssignment) *)
+Definition wf_asg (a : attr_asg) : Prop :=
+  wf_def (aa_def a) /\ check_value (aa_def a) (aa_val a) = true /\
+  match aa_val a with ValFloat f => fl_canonical f | _ => True end.
+
+Lemma index_of_nth : forall vals s i, NoDup vals -> In s vals ->
+  0 <= index_of s vals i - i < Z.of_nat (length vals) /\
+  nth (Z.to_nat (index_of s vals i - i)) vals EmptyString = s.
+Proof.
+  induction vals as [|v r IH]; intros s i Hnd Hin; [destruct Hin|].
+  cbn [index_of]. destruct (String.eqb s v) eqn:E.
+  - apply String.eqb_eq in E. subst. replace (i - i) with 0 by lia. cbn. split; [lia|reflexivity].
+  - inversion Hnd; subst. destruct Hin as [Hin|Hin]; [subst; rewrite String.eqb_refl in E; discriminate|].
+    destruct (IH s (i + 1) H2 Hin) as [Hr Hn]. cbn [length]. rewrite Nat2Z.inj_succ. split; [lia|].
+    replace (index_of s r (i + 1) - i) with (Z.succ (index_of s r (i + 1) - (i + 1))) by lia.
+    rewrite Z2Nat.inj_succ by lia. cbn [nth]. assumption.
+Qed.
+
+Theorem attr_value_roundtrip : forall k node msg sig a acc, wf_asg a ->
+  exists av, ea_attrvals (export_assignment k node msg sig a acc) = ea_attrvals acc ++ [av] /\
+             av_name av = clear_spaces (aa_name a) /\
+             attr_value (aa_def a) (reparse_val av) = Ok (aa_val a).
+Proof.
+  intros k node msg sig a acc [Hd [Hc Hf]]. unfold export_assignment.
+  destruct (export_attribute k (clear_spaces (aa_name a)) (aa_def a)) as [da dd].
+  eexists. split; [cbn [ea_attrvals]; reflexivity|]. split.
+  - destruct (aa_def a) as [s|dv mn mx hex|dv mn mx|dv vals], (aa_val a) as [t|z|f]; try destruct hex; reflexivity.
+  - destruct (aa_def a) as [s|dv mn mx hex|dv mn mx|dv vals], (aa_val a) as [t|z|f]; cbn in Hc; try discriminate.
+    + reflexivity.
+    + cbn in Hd. destruct Hd as [Hr Hh]. destruct hex; cbn; [|reflexivity].
+      destruct (Hh eq_refl) as [H0 H32]. rewrite u32_id by lia. reflexivity.
+    + unfold reparse_val. cbn [av_type av_fl]. destruct (fl_is_decimal f) eqn:Ed.
+      * reflexivity.
+      * unfold attr_value. cbn [av_type av_int]. rewrite fl_of_Z_to_Z by assumption. reflexivity.
+    + cbn in Hd. destruct Hd as [Hnd _]. apply Proofs.mem_str_true_in in Hc.
+      destruct (index_of_nth vals t 0 Hnd Hc) as [Hr Hn]. rewrite Z.sub_0_r in Hr, Hn.
+      unfold reparse_val, attr_value. cbn [av_type av_int].
+      replace ((index_of t vals 0 <? 0) || (index_of t vals 0 >=? Z.of_nat (length vals))) with false by lia.
+      rewrite Hn. reflexivity.
+Qed.
+
+(* ------------------------------------------------------------------------------------------ *)
+(* SG_MUL_VAL_ ranges: the group ids of a signal survive export (ranges_of) and import          *)
+(* (expand_ranges)                                                                            *)
+(* ------------------------------------------------------------------------------------------ *)
+Fixpoint ascending (prev : Z) (l : list Z) : Prop :=
+  match l with [] => True | x :: r => prev < x /\ ascending x r end.
+
+Lemma zrange_snoc : forall n from, zrange from (S n) = zrange from n ++ [from + Z.of_nat n].
+Proof.
+  induction n as [|n IH]; intros from.
+  - cbn. f_equal. lia.
+  - change (zrange from (S (S n))) with (from :: zrange (from + 1) (S n)). rewrite IH.
+    change (zrange from (S n)) with (from :: zrange (from + 1) n). cbn [app].
+    f_equal. f_equal. f_equal. rewrite Nat2Z.inj_succ. lia.
+Qed.
+
+Lemma expand_ranges_aux : forall gcount l from prev,
+  0 <= from -> from <= prev -> ascending prev l -> (forall x, In x (prev :: l) -> x < gcount) -> gcount <= 2 ^ 32 ->
+  expand_ranges gcount (ranges_aux from prev l) = Ok (zrange from (Z.to_nat (prev - from + 1)) ++ l).
+Proof.
+  intros gcount l. induction l as [|x r IH]; intros from prev H0 Hle Hasc Hb H32.
+  - cbn [ranges_aux expand_ranges]. rewrite !u32_id by (specialize (Hb prev (or_introl eq_refl)); lia).
+    replace ((from <=? prev) && (prev >=? gcount)) with false by (specialize (Hb prev (or_introl eq_refl)); lia).
+    cbn. rewrite !app_nil_r. reflexivity.
+  - cbn [ranges_aux]. cbn in Hasc. destruct Hasc as [Hlt Hasc].
+    assert (Hx : x < gcount) by (apply Hb; right; left; reflexivity).
+    assert (Hp : prev < gcount) by (apply Hb; left; reflexivity).
+    destruct (x =? prev + 1) eqn:E.
+    + rewrite IH; try lia; try assumption.
+      * replace (Z.to_nat (x - from + 1)) with (S (Z.to_nat (prev - from + 1))) by lia.
+        rewrite zrange_snoc, <- app_assoc. cbn [app]. f_equal. f_equal. f_equal. f_equal. lia.
+      * intros y Hy. apply Hb. right. assumption.
+    + cbn [expand_ranges]. rewrite !u32_id by lia.
+      replace ((from <=? prev) && (prev >=? gcount)) with false by lia.
+      rewrite IH; try lia; try assumption.
+      * cbn [bind]. replace (Z.to_nat (x - x + 1)) with 1%nat by lia. cbn [zrange app]. reflexivity.
+      * intros y Hy. apply Hb. right. assumption.
+Qed.
+
+Theorem mux_ranges_roundtrip : forall gcount g,
+  ascending (-1) g -> (forall x, In x g -> x < gcount) -> gcount <= 2 ^ 32 ->
+  expand_ranges gcount (ranges_of g) = Ok g.
+Proof.
+  intros gcount g Hasc Hb H32. destruct g as [|x r]; [reflexivity|].
+  cbn [ranges_of]. cbn in Hasc. destruct Hasc as [H0 Hasc].
+  rewrite expand_ranges_aux; try lia; try assumption.
+  replace (Z.to_nat (x - x + 1)) with 1%nat by lia. reflexivity.
+Qed.
